@@ -33,6 +33,7 @@ import GM.Model.InlinesLoopX
 import GM.Proof.InlinesLoopX
 import GM.Props.Convert
 import GM.Props.Consts.Ext
+import GM.Props.ConvertX
 
 namespace GM.Props.C11
 open GM GM.InlineLoop GM.Proof.InlineLoop
@@ -416,5 +417,51 @@ theorem paragraph_not_started_by_bracket_untouched : type_of% @GM.Props.Convert.
 theorem consts_extension_regexps_tied : GM.Spec.Consts.allOk GM.Spec.Consts.extensionRegexps = true := GM.Props.Consts.Ext.extension_regexps_tied
 /-- (package consts) goldmark compiles exactly the 18 known regular expressions, all understood by the extractor -/
 theorem consts_regexp_inventory_complete : GM.Spec.Consts.allOk GM.Spec.Consts.regexpInventory = true := GM.Props.Consts.Ext.regexp_inventory_complete
+
+/-- (re-export of `GM.Props.ConvertX.convertx_off_is_core`) `convertx_off_is_core`. With no member switched on the composed model IS the model of the default CommonMark pipeline:
+    same HTML, same outcome, for every source, Unicode class assignment and renderer option set — guarded and unguarded. -/
+theorem convertx_off_is_core : type_of% @GM.Props.ConvertX.convertx_off_is_core := @GM.Props.ConvertX.convertx_off_is_core
+
+/-- (re-export of `GM.Props.ConvertX.convertx_conservative_tasklist`) `convertx_conservative_tasklist` — C11 AT WHOLE-DOCUMENT LEVEL on the model, for every member set without Strikethrough
+    (Table on or off): a source without `[` converts to the same HTML — or the same error outcome — with and without
+    TaskList, for every renderer option set and Unicode class assignment. Composed from `never_consulted_concrete`
+    (GM.Props.C11: the checkbox parser is never consulted, so the inline children of every block are `parseBlock`'s), the shape
+    theorem of the default inline phase (`parseBlock_wf`: emphasis levels 1 or 2, so the representation of a TaskCheckBox does
+    not occur and decoding does not depend on the flag; kept through the table AST transformer) and "the renderer reads
+    `Exts` only through `handled`" on a tree without TaskCheckBox nodes.
+    Missing for `ConservativeTasklist`: the same with Strikethrough on (needs the loop invariant of the open-table loop with
+    the strikethrough parser and the link parser over `processDelimitersG true`, see `ConvertXNeverLoops`). -/
+theorem convertx_conservative_tasklist : type_of% @GM.Props.ConvertX.convertx_conservative_tasklist := @GM.Props.ConvertX.convertx_conservative_tasklist
+
+/-- (re-export of `GM.Props.ConvertX.convertx_conservative_tasklist_phases`) the same at phase level: the block phase is the same, and behind the run-time check the inline children of EVERY block
+    (any line list) are the same -/
+theorem convertx_conservative_tasklist_phases : type_of% @GM.Props.ConvertX.convertx_conservative_tasklist_phases := @GM.Props.ConvertX.convertx_conservative_tasklist_phases
+
+/-- (re-export of `GM.Props.ConvertX.convertx_conservative_table`) `convertx_conservative_table` — C11 AT WHOLE-DOCUMENT LEVEL on the model, for EVERY member set (Strikethrough / TaskList
+    on or off): a source without '-' converts to the same HTML — or the same error outcome — with and without Table, for
+    every renderer option set and Unicode class assignment; the only other possibility is that the table transformer's domain
+    monitor answers `blocks pre` (a paragraph line outside the source; never in the tie, and excluded for well-formed lines by
+    the check `guardedTransform` makes on the same paragraph just before). Composed from `table_needs_dash` (GM.Props.C11: the
+    transformer returns the state unchanged), the monotonicity of the block driver `runT` in its transformer list
+    (GM.Proof.ConvertXRel: a relation closed under bind from every state, through all thirteen driver functions: same node
+    store, context, reader), "no node decodes as a table node on a source without '-'" (the witness of GM.Model.ExtTableX, so
+    the tree, the escaped-pipe list and every block's inline phase are the same) and "the renderer reads `Exts` only through
+    `handled`" on a tree without table kinds. Missing for `ConservativeTable`: the monitor unreachable. -/
+theorem convertx_conservative_table : type_of% @GM.Props.ConvertX.convertx_conservative_table := @GM.Props.ConvertX.convertx_conservative_table
+
+/-- (re-export of `GM.Props.ConvertX.convertx_conservative_table_blockphase`) the same for the block phase alone (guarded or not): exactly the state — node store, parse context with the reference
+    map, reader — or the error of the block phase without Table, or `pre` -/
+theorem convertx_conservative_table_blockphase : type_of% @GM.Props.ConvertX.convertx_conservative_table_blockphase := @GM.Props.ConvertX.convertx_conservative_table_blockphase
+
+/-- (re-export of `GM.Props.ConvertX.convertx_conservative_table_partial`) the same at transformer level (any state of the block phase): the state is returned unchanged, or `pre` -/
+theorem convertx_conservative_table_partial : type_of% @GM.Props.ConvertX.convertx_conservative_table_partial := @GM.Props.ConvertX.convertx_conservative_table_partial
+
+/-- (re-export of `GM.Props.ConvertX.convertx_conservative_strikethrough_partial`) `convertx_conservative_strikethrough`, byte-loop level (any member set): on a line without `~` the byte loop of
+    parseBlock never consults the strikethrough parser — the loop over the member set's table is the loop over the table
+    with the entry of `~` emptied, from every state. Missing for `ConservativeStrikethrough`: (1) every peeked line is a
+    slice of the source (the open-table loop invariant, see `ConvertXNeverLoops`); (2) `processDelimitersG true` is
+    `processDelimiters` on children without a `~` delimiter and the link parser keeps that invariant; (3) no emphasis node
+    of level 0 (the representation of Strikethrough) in the default model; (4) `render` and `Exts.strike`. -/
+theorem convertx_conservative_strikethrough_partial : type_of% @GM.Props.ConvertX.convertx_conservative_strikethrough_partial := @GM.Props.ConvertX.convertx_conservative_strikethrough_partial
 
 end GM.Props.C11
